@@ -39,6 +39,7 @@ template<class V> static void run(const VpCase* c, VpOutcome* o) {
     if (scalar && W != 1) { o->status = 2; return; }
     uint64_t al[VP_MAXL], bl[VP_MAXL], got[VP_MAXL], exp[VP_MAXL];
     for (unsigned i = 0; i < W; ++i) { al[i] = c->v[0][i] & F::mask(); bl[i] = c->v[1][i] & F::mask(); }
+    poison_below(al[0] ^ f);
     if (!scalar) {
         V a = mk<V>(al), b = mk<V>(bl); M m{}; IV ir{};
         switch (f) {
